@@ -80,6 +80,14 @@ Closest(ev) ==
                 \* "... and therefore in find_node, get_peers and get responses": a server holding this table answers each
                 \* request kind for this target with exactly the table's closest() answer
                 \cup (IF ev.served.find_node = ev.ans /\ ev.served.get_peers = ev.ans /\ ev.served.get = ev.ans THEN {} ELSE {"C11_ResponsesCarryClosest"})
+                \* a find_node answer drawn from both tables (signed-peers table = a subset of the main table): at most K nodes, all
+                \* distinct, all members, the signed table's closest first and then the main table's closest that are not listed yet
+                \cup (LET sb == ev.served_both
+                          rest == SelectSeq(ev.ans, LAMBDA x : \A j \in 1..Len(ev.signed_closest) : ev.signed_closest[j] # x)
+                          want == SubSeq(ev.signed_closest \o rest, 1, IF Len(ev.signed_closest) + Len(rest) < KK THEN Len(ev.signed_closest) + Len(rest) ELSE KK)
+                      IN (IF Len(sb) <= KK /\ Cardinality({sb[i] : i \in 1..Len(sb)}) = Len(sb) THEN {} ELSE {"C11_ResponseNodesDistinct"})
+                         \cup (IF {sb[i] : i \in 1..Len(sb)} \subseteq {ev.ans[i] : i \in 1..Len(ev.ans)} \cup {ev.signed_closest[i] : i \in 1..Len(ev.signed_closest)} THEN {} ELSE {"C11_Members"})
+                         \cup (IF Len(ev.ans) < KK /\ sb # want THEN {"C11_ResponsesCarryClosest"} ELSE {}))
       model == CodeClosest(s, t)
       conforms == [i \in 1..Len(model) |-> model[i].id] = [i \in 1..Len(ans) |-> ans[i].id]
   IN /\ IF failed # {} THEN Report(failed, [op |-> "closest", explained |-> OmissionExplained(s, ans, t), conforms_to_model |-> conforms])
